@@ -484,6 +484,8 @@ def build(kind):
         sim = SimLite(NDEF0 * 3)
     elif kind == "t4":
         sim = SimT4(NDEF0 * 5)
+    elif kind == "t4slow":
+        sim = SimT4(NDEF0 * 2, fwi=11)         # frame waiting time 0.62 s: one R(NAK) retry only
     else:
         raise ValueError(kind)
     air = Air(sim)
@@ -491,4 +493,4 @@ def build(kind):
     return sim, air, tag
 
 
-KINDS = ["t2", "t2big", "ul", "ulc", "ntag203", "ntag213", "t3", "t3std", "lite", "t1s", "t1d", "topaz", "topaz512", "t4"]
+KINDS = ["t2", "t2big", "ul", "ulc", "ntag203", "ntag213", "t3", "t3std", "lite", "t1s", "t1d", "topaz", "topaz512", "t4", "t4slow"]
